@@ -45,6 +45,7 @@ CONSTANTS MaxR,        \* rounds 1..MaxR
           Repair,      \* subset of {"certReload", "replayMoves", "noBackward"}; {} = as coded
           Mode,        \* "M": exhaustive check with a guessed target; "G": behaviour generation; "GV": one behaviour per state
           MaxOps,      \* mode G: length of the generated behaviours
+          GVAfter,     \* mode GV: behaviours with at most GVAfter events after the restart
           Weaken       \* TRUE: the invariants tolerate the classes listed as known findings
 
 Kinds == {"Prevote", "Precommit", "Next", "Cert"}
@@ -283,6 +284,8 @@ Leaf == (Mode = "G" /\ Len(hist) >= MaxOps) => PrintT("@@J " \o ToJson([kind |->
 \* Mode "GV": breadth-first search over the VIEW (states, not behaviours, are distinct); used as an INVARIANT, which TLC
 \* evaluates once per distinct state: one (shortest) behaviour into every distinct state in which the restarted node has
 \* just processed an event that can make it vote -- every reachable combination of disk records and restarted memory
-LeafV == (Mode = "GV" /\ up /\ crashes >= 1 /\ hist[Len(hist)].op \in {"Ctx", "Quorum"} /\ hist[Len(hist)].cw = -1)
+LastRestart == LET ks == { n \in DOMAIN hist : hist[n].op = "Restart" } IN CHOOSE k \in ks : \A m \in ks : m <= k
+LeafV == (Mode = "GV" /\ up /\ crashes >= 1 /\ hist[Len(hist)].op \in {"Ctx", "Quorum"} /\ hist[Len(hist)].cw = -1
+          /\ Len(hist) - LastRestart <= GVAfter)
             => PrintT("@@J " \o ToJson([kind |-> "B", h |-> hist]))
 =============================================================================
